@@ -301,8 +301,18 @@ def _copy(stg, c, tmp, R):
     cp.add_noise(3.0, 1.0, noise_type='gaussian')
     if cp.waterfall is not None:
         cp.waterfall.header['source_name'] = 'CHANGED'
+    hdr_edit = isinstance(getattr(cp, 'header', None), dict)
+    if hdr_edit:
+        cp.header['source_name'] = 'CHANGED_VIA_HEADER'
+        cp.header['verif_new_key'] = 1
     R.check(np.array_equal(fr.data, snap[0]) and fr.metadata == snap[1] and fr.rng.bit_generator.state == snap[2] and np.array_equal(fr.ts, snap[3]),
             'copy:mutating-the-copy-changed-the-original')
+    if hdr_edit:
+        for nm_, h_ in (('frame-header', getattr(fr, 'header', None)), ('waterfall-header', fr.waterfall.header if fr.waterfall is not None else None)):
+            if isinstance(h_, dict):
+                sn_ = h_.get('source_name')
+                R.check((sn_.decode() if isinstance(sn_, bytes) else sn_) != 'CHANGED_VIA_HEADER' and 'verif_new_key' not in h_,
+                        'copy:header-dictionary-shared-with-original:' + nm_)
     if fr.waterfall is not None:
         sn = fr.waterfall.header.get('source_name')
         R.check((sn.decode() if isinstance(sn, bytes) else sn) != 'CHANGED', 'copy:waterfall-header-shared')
